@@ -86,6 +86,8 @@ static void *v_memmove(void *dst, const void *src, size_t n)
 #define OP_RMTSEC 8
 #define OP_SETOPT_TEXT 9
 #define OP_SETNINT_VETO 10 /* cfg_setnint() by name with a pre-set validation callback */
+#define OP_SETNSTR_VETO 11 /* cfg_setnstr() by name, value a string or NULL, index symbolic */
+#define OP_SETNFLOAT_VETO 12 /* cfg_setnfloat() by name, index symbolic */
 
 #ifndef NV
 #define NV 1
@@ -273,6 +275,19 @@ static int veto_cb(cfg_t *cfg, cfg_opt_t *opt, void *value)
 	veto_seen = *(long *)value;
 	if (veto_do_rewrite)
 		*(long *)value = veto_rewrite;
+	return veto_rc;
+}
+#endif
+
+#if OP == OP_SETNSTR_VETO || OP == OP_SETNFLOAT_VETO
+static int veto_rc, n_veto;
+static const void *veto_seen;
+static int veto_cb(cfg_t *cfg, cfg_opt_t *opt, void *value)
+{
+	(void)cfg;
+	(void)opt;
+	n_veto++;
+	veto_seen = value;
 	return veto_rc;
 }
 #endif
@@ -569,6 +584,47 @@ int main(void)
 		} else {
 			A14(rc == CFG_SUCCESS, "[C14] an approving pre-set validation callback lets the set succeed");
 			A14(cfg_opt_getnint(O, 0) == (vin_rewrite ? vin_rewritten : vin_new), "[C14] a pre-set validation callback can rewrite the value");
+			V_WITNESS("applied");
+		}
+	}
+#elif OP == OP_SETNSTR_VETO
+	{
+		V_IN_UINT(vin_idx);
+		V_IN_INT(vin_veto_rc);
+		V_IN_BOOL(vin_null);
+		V_IN_STR(vin_sval, 1);
+		const char *arg = vin_null ? NULL : vin_sval;
+
+		V_ASSUME(vin_idx <= NV + 1);
+		veto_rc = vin_veto_rc;
+		O->validcb2 = veto_cb;
+		rc = cfg_setnstr(&root, "o", arg, vin_idx);
+		A14(n_veto == 1 && veto_seen == (const void *)arg, "[C14] the pre-set validation callback runs once per by-name set and sees the value about to be set (string setter, NULL included)");
+		if (vin_veto_rc != 0) {
+			A10(rc == CFG_FAIL, "[C10] a string setter vetoed by its validation callback fails");
+			assert_untouched();
+			V_WITNESS("refused");
+		} else {
+			V_WITNESS("applied");
+		}
+	}
+#elif OP == OP_SETNFLOAT_VETO
+	{
+		V_IN_UINT(vin_idx);
+		V_IN_INT(vin_veto_rc);
+		V_IN_INT(vin_fnum);
+		double arg = (double)vin_fnum;
+
+		V_ASSUME(vin_idx <= NV + 1);
+		veto_rc = vin_veto_rc;
+		O->validcb2 = veto_cb;
+		rc = cfg_setnfloat(&root, "o", arg, vin_idx);
+		A14(n_veto == 1 && veto_seen != NULL, "[C14] the pre-set validation callback runs once per by-name set (float setter)");
+		if (vin_veto_rc != 0) {
+			A10(rc == CFG_FAIL, "[C10] a float setter vetoed by its validation callback fails");
+			assert_untouched();
+			V_WITNESS("refused");
+		} else {
 			V_WITNESS("applied");
 		}
 	}
